@@ -129,4 +129,20 @@ def walkFailShape (st : Stale) (viaStep : Bool) : Cb → String
   | .conn _ _ _ => if viaStep then st.shape else "walk"
   | .exit => "walk"
 
+/-! ### disconnects are reported
+
+The callbacks replayed as a stack must stay a chain, so a block may only leave the caller's view through a disconnected
+callback.  In the current arm the rescan reads every `Disconnected` of its subscription; when it reads the one naming the
+block the caller was last told is current, the disconnected callback for that block is due in that very step (otherwise
+the caller keeps building on a block that has left the chain and the later disconnects, naming its ancestors, are dropped
+as "not current"). -/
+
+def isDiscOf (b : Nat) : Cb → Bool
+  | .disc _ id => id == b
+  | _ => false
+
+/-- `cur`: the block the caller was last told is current; `b`: the block named by the `Disconnected` notification the
+rescan has just consumed in the current arm; `cbs`: the callbacks it delivered while handling it -/
+def discReported (cur b : Nat) (cbs : List Cb) : Bool := b != cur || cbs.any (isDiscOf b)
+
 end Neutrino.Rescan
